@@ -33,7 +33,7 @@ def _normbool(out):
         return out
     flat = list(out.flat)
     if all(isinstance(x, (bool, _np.bool_)) for x in flat):
-        return _np.asarray(out, dtype=bool)
+        return _np.asarray(out, dtype=bool).view(SymArray)
     res = _np.empty(out.shape, dtype=object)
     rf = res.reshape(-1) if res.ndim else res
     for i, x in enumerate(flat):
@@ -62,12 +62,30 @@ def _cmp(op):
     def m(self, other):
         if isinstance(other, (str, type(None))):
             return NotImplemented
+        if self.dtype != object and not has_sym(other) and not (isinstance(other, _np.ndarray) and other.dtype == object):
+            return _wrap(op(_np.asarray(self), _np.asarray(other) if isinstance(other, _np.ndarray) else other))
         return _normbool(f(_np.asarray(self), _o(other)))
     return m
 
 
-_and = _np.frompyfunc(lambda a, b: a & b, 2, 1)
-_or = _np.frompyfunc(lambda a, b: a | b, 2, 1)
+def _b(x):
+    """cell -> python bool or SymBool"""
+    if isinstance(x, (SymBool, bool)):
+        return x
+    if isinstance(x, _np.bool_):
+        return bool(x)
+    if isinstance(x, SymReal):
+        return x != 0
+    return bool(x)
+
+
+def _objlike(o):
+    return isinstance(o, (SymBool, SymReal)) or (isinstance(o, _np.ndarray) and o.dtype == object)
+
+
+_and = _np.frompyfunc(lambda a, b: _b(a) & _b(b), 2, 1)
+_or = _np.frompyfunc(lambda a, b: _b(a) | _b(b), 2, 1)
+_not = _np.frompyfunc(lambda a: (not _b(a)) if isinstance(_b(a), bool) else ~_b(a), 1, 1)
 _smax2 = _np.frompyfunc(lambda a, b: S.Max([a, b]), 2, 1)
 _smin2 = _np.frompyfunc(lambda a, b: S.Min([a, b]), 2, 1)
 
@@ -109,6 +127,33 @@ class SymArray(_np.ndarray):
     __ne__ = _cmp(operator.ne)
     __hash__ = None
 
+    # boolean algebra: object arrays may hold python bools next to SymBools; `~True` would be -2, so every
+    # boolean operator is evaluated cell-wise with bool-aware functions and the result re-normalised
+    def __invert__(self):
+        if self.dtype != object:
+            return _wrap(~_np.asarray(self))
+        return _normbool(_not(_np.asarray(self)))
+
+    def __and__(self, o):
+        if self.dtype != object and not _objlike(o):
+            return _wrap(_np.asarray(self) & (_np.asarray(o) if isinstance(o, _np.ndarray) else o))
+        return _normbool(_and(_np.asarray(self), _o(o)))
+    __rand__ = __and__
+
+    def __or__(self, o):
+        if self.dtype != object and not _objlike(o):
+            return _wrap(_np.asarray(self) | (_np.asarray(o) if isinstance(o, _np.ndarray) else o))
+        return _normbool(_or(_np.asarray(self), _o(o)))
+    __ror__ = __or__
+
+    def __iand__(self, o):
+        self[...] = _np.asarray(self.__and__(o))
+        return self
+
+    def __ior__(self, o):
+        self[...] = _np.asarray(self.__or__(o))
+        return self
+
     def __getitem__(self, idx):
         return _np.ndarray.__getitem__(self, _fix_index(idx))
 
@@ -118,22 +163,34 @@ class SymArray(_np.ndarray):
         return _np.ndarray.__setitem__(self, _fix_index(idx), val)
 
     def all(self, axis=None, out=None, keepdims=False, **kw):
+        if self.dtype != object:
+            return _wrap(_np.asarray(self).all(axis=axis, keepdims=keepdims))
         return _bool_reduce(self, _and, True, axis, keepdims)
 
     def any(self, axis=None, out=None, keepdims=False, **kw):
+        if self.dtype != object:
+            return _wrap(_np.asarray(self).any(axis=axis, keepdims=keepdims))
         return _bool_reduce(self, _or, False, axis, keepdims)
 
     def max(self, axis=None, out=None, keepdims=False, **kw):
+        if self.dtype != object:
+            return _wrap(_np.asarray(self).max(axis=axis, keepdims=keepdims))
         return _reduce(self, _smax2, axis, keepdims)
 
     def min(self, axis=None, out=None, keepdims=False, **kw):
+        if self.dtype != object:
+            return _wrap(_np.asarray(self).min(axis=axis, keepdims=keepdims))
         return _reduce(self, _smin2, axis, keepdims)
 
     def astype(self, dtype, *a, **kw):
+        if self.dtype != object:
+            if dtype in (float, _np.float64):
+                return _np.asarray(self).astype(object).view(SymArray)
+            return _wrap(_np.asarray(self).astype(dtype, *a, **kw))
         if dtype is bool or dtype == _np.bool_:
             flat = [x for x in self.flat]
             if any(isinstance(x, SymBool) for x in flat):
-                return _np.asarray(self).view(SymArray)
+                return _normbool(_np.asarray(self))
             if any(isinstance(x, SymReal) for x in flat):
                 f = _np.frompyfunc(lambda x: (x != 0), 1, 1)
                 return _normbool(f(_np.asarray(self)))
@@ -145,13 +202,29 @@ class SymArray(_np.ndarray):
         return _np.ndarray.astype(self, dtype, *a, **kw)
 
     def argmax(self, axis=None, out=None, **kw):
+        if self.dtype != object:
+            return _np.asarray(self).argmax(axis=axis)
         return _argbest(self, axis, operator.gt)
 
     def argmin(self, axis=None, out=None, **kw):
+        if self.dtype != object:
+            return _np.asarray(self).argmin(axis=axis)
         return _argbest(self, axis, operator.lt)
 
     def copy(self, *a, **kw):
         return _np.ndarray.copy(self, *a, **kw).view(SymArray)
+
+    def sum(self, *a, **kw):
+        r = _np.asarray(self).sum(*a, **kw)
+        return _wrap(r) if isinstance(r, _np.ndarray) and r.ndim > 0 else (r[()] if isinstance(r, _np.ndarray) else r)
+
+    def dot(self, other):
+        r = _np.asarray(self).dot(_np.asarray(other))
+        return _wrap(r) if isinstance(r, _np.ndarray) and r.ndim > 0 else (r[()] if isinstance(r, _np.ndarray) else r)
+
+    def __matmul__(self, other):
+        r = _np.matmul(_np.asarray(self), _np.asarray(other))
+        return _wrap(r) if isinstance(r, _np.ndarray) and r.ndim > 0 else (r[()] if isinstance(r, _np.ndarray) else r)
 
     def tolist(self):
         return _np.asarray(self).tolist()
@@ -224,7 +297,8 @@ def _argbest(a, axis, better):
 
 
 def _wrap(r):
-    if isinstance(r, _np.ndarray) and r.dtype == object:
+    """every array the facade hands out is a SymArray view, so that indexing with symbolic masks always works"""
+    if isinstance(r, _np.ndarray) and r.dtype.kind in 'Obiuf' and not isinstance(r, SymArray):
         return r.view(SymArray)
     return r
 
@@ -251,11 +325,53 @@ def _obj(a):
     return _np.asarray(a)
 
 
+def _numeral_matrix(A):
+    """2-d array whose cells are all numerals -> list of lists of Fraction, else None"""
+    from fractions import Fraction
+    if A.ndim != 2:
+        return None
+    out = []
+    for row in _np.asarray(A):
+        r = []
+        for x in row:
+            v = S.concrete_value(x) if isinstance(x, SymReal) else x
+            if v is None or isinstance(v, SymBool) or (isinstance(v, float) and (v != v or v in (float('inf'), float('-inf')))):
+                return None
+            r.append(Fraction(v) if not isinstance(v, float) else Fraction(v).limit_denominator(10 ** 9) if float(Fraction(v).limit_denominator(10 ** 9)) == v else Fraction(v))
+        out.append(r)
+    return out
+
+
+def _exact_inverse(M):
+    """Gauss-Jordan over the rationals; raises numpy's LinAlgError on singular input (as numpy does)"""
+    from fractions import Fraction
+    n = len(M)
+    A = [list(row) + [Fraction(int(i == j)) for j in range(n)] for i, row in enumerate(M)]
+    for c in range(n):
+        piv = next((r for r in range(c, n) if A[r][c] != 0), None)
+        if piv is None:
+            raise _np.linalg.LinAlgError('Singular matrix')
+        A[c], A[piv] = A[piv], A[c]
+        pv = A[c][c]
+        A[c] = [x / pv for x in A[c]]
+        for r in range(n):
+            if r != c and A[r][c] != 0:
+                f = A[r][c]
+                A[r] = [x - f * y for x, y in zip(A[r], A[c])]
+    return [row[n:] for row in A]
+
+
 class _Linalg:
     def solve(self, A, b):
         A, b = _obj(A), _obj(b)
         if not (has_sym(A) or has_sym(b)):
             return _np.linalg.solve(_np.asarray(A, dtype=float), _np.asarray(b, dtype=float))
+        nm = _numeral_matrix(A) if (A.ndim == 2 and A.shape[0] == A.shape[1] and b.ndim in (1, 2)) else None
+        if nm is not None:
+            _np.linalg.solve(_np.zeros(A.shape) + _np.eye(A.shape[0]), _np.zeros(b.shape))   # shape oracle (raises as numpy)
+            inv = _np.array([[SymReal.of(x) for x in row] for row in _exact_inverse(nm)], dtype=object)
+            S.note('exact', what='np.linalg.solve', contract='exact rational elimination (numeral matrix)')
+            return _wrap(_np.dot(inv, _np.asarray(b)))
         # shape oracle: real numpy decides result shape / exception on dummy well-conditioned input
         dA = _np.zeros(A.shape) + _np.eye(A.shape[-1]) if A.ndim >= 2 and A.shape[-1] == A.shape[-2] else _np.zeros(A.shape)
         ref = _np.linalg.solve(dA, _np.zeros(b.shape))     # raises exactly as numpy would
@@ -282,6 +398,10 @@ class _Linalg:
             return _np.linalg.inv(_np.asarray(A, dtype=float))
         n = A.shape[-1]
         ref = _np.linalg.inv(_np.zeros(A.shape) + _np.eye(n))
+        nm = _numeral_matrix(A)
+        if nm is not None:
+            S.note('exact', what='np.linalg.inv', contract='exact rational elimination (numeral matrix)')
+            return _np.array([[SymReal.of(x) for x in row] for row in _exact_inverse(nm)], dtype=object).view(SymArray)
         S.note('external-assumed', what='np.linalg.inv', contract='A.inv(A)=I on nonsingular A')
         r = S.cur()
         base = r.fresh('inv')
@@ -357,14 +477,14 @@ class NumpyFacade:
     # -- creation -------------------------------------------------------------------------------
     def zeros(self, shape, dtype=float, **kw):
         if dtype in (bool, _np.bool_, int, _np.int64, _np.intp) or (isinstance(dtype, _np.dtype) and dtype.kind in 'biu'):
-            return _np.zeros(shape, dtype=dtype)
+            return _wrap(_np.zeros(shape, dtype=dtype))
         a = _np.empty(shape, dtype=object)
         a.fill(0.0)
         return a.view(SymArray)
 
     def ones(self, shape, dtype=float, **kw):
         if dtype in (bool, _np.bool_, int, _np.int64):
-            return _np.ones(shape, dtype=dtype)
+            return _wrap(_np.ones(shape, dtype=dtype))
         a = _np.empty(shape, dtype=object)
         a.fill(1.0)
         return a.view(SymArray)
@@ -397,8 +517,8 @@ class NumpyFacade:
             r = _np.array(obj, **kw) if dtype is None else _np.array(obj, dtype=dtype, **kw)
             if isinstance(r, _np.ndarray) and r.dtype.kind == 'f':
                 return r.astype(object).view(SymArray)
-            return r
-        return _np.array(obj, dtype=dtype, **kw)
+            return _wrap(r)
+        return _wrap(_np.array(obj, dtype=dtype, **kw))
 
     def asarray(self, obj, dtype=None, **kw):
         if isinstance(obj, _np.ndarray) and dtype is None:
@@ -418,7 +538,7 @@ class NumpyFacade:
             return _wrap(r)
         if out is not None and not (isinstance(out, _np.ndarray) and out.dtype == object):
             return _np.einsum(spec, *ops, out=out, **kw)
-        return _np.einsum(spec, *ops, **kw)
+        return _wrap(_np.einsum(spec, *ops, **kw))
 
     def diagonal(self, a, *args, **kw):
         return _wrap(_np.diagonal(a, *args, **kw))
